@@ -340,6 +340,7 @@ func grpcStatusExtra(t *tr) string {
 	// ---- 8. path summaries of the functions that report samples
 	gsPaths(t, &b)
 	grpcstatusR4(t, &b)
+	grpcstatusR6(t, &b)
 	return b.String()
 }
 
